@@ -14,7 +14,12 @@
       keyed by the public key only, in front of the formatting; the eth
       formatting lower-cases when the crypto context has no API or
       ForkFormatAddressKey is active at the context's current height;
-    - types.CheckSign / crypto.Load: crypto driver enabled at the height.
+    - types.CheckSign / crypto.Load: crypto driver enabled at the height;
+    - Transaction.From / fromAddr (repaired in 909acb0): "" instead of a panic
+      when the address id of the sign type has no registered driver or the
+      driver cannot convert the key; Transaction.checkSign refuses such a
+      signature, and converts the public key (through the driver's cache) as
+      a side effect.
 
     Abstracted (oracle tables supplied with every case; function arguments of
     the model, the theorems quantify over them): the per-driver ValidateAddr
@@ -80,7 +85,8 @@ Record config := mkCfg {
   c_raw    : N -> N -> option bytes; (* unformatted address of driver id for pubkey number; None = panics *)
   c_eth    : N;                   (* id of the driver whose formatting depends on the fork *)
   c_cry    : list (N * (bool * Z));  (* crypto drivers: id, (enabled, enable height) *)
-  c_sig    : N -> option (N * bool)  (* signed payload number -> crypto driver id, verifies *)
+  c_sig    : N -> option (N * bool); (* signed payload number -> crypto driver id, verifies *)
+  c_sfrom  : N -> option (N * N)     (* signed payload number -> address id of the sign type, public key number *)
 }.
 
 (** ** LRU cache (hashicorp/golang-lru simplelru): most recent first *)
@@ -214,9 +220,8 @@ Definition has_drv (c : config) (d : N) : bool :=
 
 Definition resolve_drv (c : config) (d : Z) : N := if d <? 0 then c_def c else Z.to_N d.
 
-(** address.PubKeyToAddr(d, pub) with the crypto context at height [h] *)
-Definition pub_to_addr (c : config) (st : state) (d : Z) (p : N) (h : Z) : state * ans :=
-  let id := resolve_drv c d in
+(** the driver [id] converting public key [p] with the crypto context at height [h] *)
+Definition pub_to_addr_id (c : config) (st : state) (id : N) (p : N) (h : Z) : state * ans :=
   if negb (has_drv c id) then (st, APanic)            (* MustLoadDriver *)
   else match c_raw c id p with
   | None => (st, APanic)                              (* "implement me" *)
@@ -229,6 +234,21 @@ Definition pub_to_addr (c : config) (st : state) (d : Z) (p : N) (h : Z) : state
           (mkSt (s_chk st) (pc_set id (lru_add (c_pcap c id) p v l) (s_pub st)), AStr v)
       end
   end.
+
+(** address.PubKeyToAddr(d, pub) with the crypto context at height [h] *)
+Definition pub_to_addr (c : config) (st : state) (d : Z) (p : N) (h : Z) : state * ans :=
+  pub_to_addr_id c st (resolve_drv c d) p h.
+
+(** Transaction.fromAddr (since 909acb0): address.LoadDriver(id, -1) and the
+    driver's PubKeyToAddr with a panic confined; [None] = no sender address.
+    The conversion goes through the driver's cache like any other. *)
+Definition from_addr (c : config) (st : state) (d : N) (p : N) (h : Z) : state * option bytes :=
+  let (st', a) := pub_to_addr_id c st d p h in
+  (st', match a with AStr s => Some s | _ => None end).
+
+(** whether a sender address can be derived at all (independent of caches and heights) *)
+Definition from_ok (c : config) (d p : N) : bool :=
+  has_drv c d && match c_raw c d p with Some _ => true | None => false end.
 
 (** ** types.CheckSign: crypto.Load with WithLoadOptionEnableCheck *)
 Fixpoint assocC (k : N) (l : list (N * (bool * Z))) : option (bool * Z) :=
@@ -253,8 +273,9 @@ Definition check_sign (c : config) (k : N) (h : Z) : bool :=
 Inductive op :=
 | OCheck (a : N) (h : Z)              (* address.CheckAddress(a, h) *)
 | ODapp (a : N) (h : Z)               (* dapp.CheckAddress(cfg, a, h) *)
-| OPub (d : Z) (p : N) (h : Z)        (* PubKeyToAddr / Transaction.From with the context at h *)
-| OSign (k : N) (h : Z).              (* Transaction.CheckSign(h) *)
+| OPub (d : Z) (p : N) (h : Z)        (* address.PubKeyToAddr with the context at h *)
+| OSign (k : N) (h : Z)               (* Transaction.CheckSign(h) with the context at h *)
+| OFrom (d : N) (p : N) (h : Z).      (* Transaction.From(), address id d, with the context at h *)
 
 (** one step, given the value [e] the driver loop yields should it run *)
 Definition step_v (c : config) (st : state) (o : op) (e : err) : state * ans :=
@@ -262,7 +283,17 @@ Definition step_v (c : config) (st : state) (o : op) (e : err) : state * ans :=
   | OCheck a h => let (st', e') := check_address_v c st a e in (st', AErr e')
   | ODapp a h => let (st', e') := dapp_check_v c st a h e in (st', AErr e')
   | OPub d p h => pub_to_addr c st d p h
-  | OSign k h => (st, ABool (check_sign c k h))
+  | OSign k h =>
+      (* Signature nil -> false; fromAddr fails -> false; types.CheckSign *)
+      match c_sfrom c k with
+      | None => (st, ABool false)
+      | Some (d, p) =>
+          let (st', r) := from_addr c st d p h in
+          (st', ABool (match r with None => false | Some _ => check_sign c k h end))
+      end
+  | OFrom d p h =>
+      let (st', r) := from_addr c st d p h in
+      (st', AStr (match r with None => [] | Some s => s end))
   end.
 
 Definition op_miss (c : config) (o : op) (perm : list (N * Z)) : err :=
